@@ -43,12 +43,18 @@ def kfun(mat):
     return k
 
 
-def pin_events(pm, q_lin, T_cool, htc, dz, t, sb=None, gapk=None):
+def pin_events(pm, q_lin, T_cool, htc, dz, t, sb=None, gapk=None,
+               gapdr=None):
     """Pin events from the model and the temperatures it returned."""
     ev = []
     r_ci, r_cm, r_co = pm.clad['r']
     kc = pm.clad['k']
     rf = float(pm.fuel['r'][-1, 1])
+    # thickness of the fuel-clad gap: as the input gives it (recorded
+    # sweeps; either spelling of the keyword), else as the model holds it
+    gdr = float(pm.gap['dr']) if gapdr is None else float(gapdr)
+    if gapdr is not None:
+        rf = float(r_ci) - gdr
     fuel_k = [kfun(m) for m in pm.fuel['mat']]
     sbc = sb if sb is not None else SB
     # conductivity of the fuel-clad gap: of the material the input names
@@ -64,12 +70,12 @@ def pin_events(pm, q_lin, T_cool, htc, dz, t, sb=None, gapk=None):
         kbar = 0.5 * (float(kc(Tci)) + float(kc(Tco)))
         qclad = 2 * math.pi * kbar * (Tci - Tco) / math.log(r_co / r_ci)
         qmid = 2 * math.pi * kbar * (Tcm - Tco) / math.log(r_co / r_cm)
-        gap = int(pm.gap['dr'] > 0)
+        gap = int(gdr > 0)
         qgap = 0.0
         if gap:
             kg = 0.5 * (float(gk(Tfs)) + float(gk(Tci)))
             qgap = 2 * math.pi * rf * (
-                kg * (Tfs - Tci) / pm.gap['dr']
+                kg * (Tfs - Tci) / gdr
                 + pm.fuel['e'] * sbc * (Tfs ** 4 - Tci ** 4))
         # shell-by-shell conduction from the reported fuel surface
         qd = q / float(pm.fuel['area'])
@@ -96,7 +102,13 @@ def pin_events(pm, q_lin, T_cool, htc, dz, t, sb=None, gapk=None):
         dTc = max(abs(Tci - Tco), 1e-9)
         tolq_rel = 3e-3 / dTc + 1e-7
         if gap:
-            tolq_rel = max(tolq_rel, 3e-3 / max(abs(Tfs - Tci), 1e-9) + 1e-7)
+            # (relative to the drop the gap must carry - by conduction alone
+            # it would be q' dr / (2 pi rf k) - not only to the reported one:
+            # a gap that reports no drop at all is not excused)
+            dexp = abs(q) * gdr / (2 * math.pi * rf * max(
+                0.5 * (float(gk(Tfs)) + float(gk(Tci))), 1e-12))
+            tolq_rel = max(tolq_rel, 3e-3 / max(abs(Tfs - Tci), 0.25 * dexp,
+                                                1e-9) + 1e-7)
         ev.append({'e': 'Pin', 'p': p,
                    't': [qT(x) for x in (Tc, Tco, Tcm, Tci, Tfs, Tcl)],
                    'q': qh(q, scale), 'qfilm': qh(qfilm, scale),
@@ -214,7 +226,14 @@ class PinObs(drive.Observer):
         self.proj = {}
         self.held = {}
         self.gapk = {}
+        self.gapdr = {}
         if case is not None:
+            for name, t in case['types'].items():
+                sec = t.get('FuelModel') or t.get('PinModel')
+                if sec:
+                    self.gapdr[name] = float(
+                        sec.get('gap_thickness',
+                                sec.get('fcgap_thickness', 0.0)) or 0.0)
             import dassh as _d
             for name, t in case['types'].items():
                 sec = t.get('FuelModel') or t.get('PinModel') or {}
@@ -257,7 +276,8 @@ class PinObs(drive.Observer):
         h = cool.thermal_conductivity * nu / de
         idx = list(range(0, reg.n_pin, max(1, reg.n_pin // 6)))
         sub = pin_events(pm, pw[idx], t[idx, 0], np.full(len(idx), h), dz,
-                         t[idx], gapk=self.gapk.get(asm.name))
+                         t[idx], gapk=self.gapk.get(asm.name),
+                         gapdr=self.gapdr.get(asm.name))
         self.ev += sub
         # coolant temperature of the pins from the geometric incidence
         if id(reg) not in self.proj:
@@ -355,6 +375,13 @@ def run(tier, res, replay=None):
         'r_frac': [0.15, 0.5, 0.8], 'pu_frac': [0.2, 0.2, 0.2],
         'zr_frac': [0.1, 0.1, 0.1], 'porosity': [0.25, 0.2, 0.15]}
     rec_cases.append(('rod3-annular-metalfuel-gasgap', c))
+    # the older spelling of the gap keyword in a pin model with user
+    # materials
+    c = trackcheck.with_pins(copy.deepcopy(sl['rod2-adiabatic']))
+    c['materials']['gas_fixed'] = {'thermal_conductivity': 0.4}
+    c['types']['a1']['PinModel'].update(
+        {'fcgap_thickness': 0.00004, 'gap_material': 'gas_fixed'})
+    rec_cases.append(('rod2-pins-legacy-gap-keyword', c))
     # user film correlations whose Reynolds and Prandtl exponents differ
     c = trackcheck.with_pins(copy.deepcopy(sl['rod3-flowgap']))
     c['types']['a1']['PinModel']['htc_params_clad'] = [0.023, 0.8, 0.4, 7.0]
